@@ -4,7 +4,7 @@ from .terms import Ctx, num, show
 from .common import P, F, SIZE, NE, effects, effective_guards, is_zero_term
 from .guards import for_range as raw_for_range
 from .common import for_range_total as for_range
-from .c06 import check_walks, check_transpose, rule_construction, rule_lookup, S, ROWS, COLS, NNZ, VAL, RI, CS
+from .c06 import check_walks, check_transpose, rule_construction, rule_lookup, rule_scale_shortcut, S, ROWS, COLS, NNZ, VAL, RI, CS
 
 LEVEL = "other"
 
@@ -60,6 +60,7 @@ def run(rep, pdb, tier):
             r = for_range(ctx, e.loops[0]) if len(e.loops) == 1 else None
             ok = r is not None and e.kind == "upd" and e.op == "*=" and e.target == VAL and e.index == r[0] and e.value == P(1) and r[1:5] == (num(0), NNZ, False, False)
         rep.add("scale", rule, ok, fn["body"], "", where=loc(fn["body"]))
+        rule_scale_shortcut(rep, pdb)
     # ---- the inner product used by <y, A x> = <A^T y, x>  (src/vector/functions.rs is an anchor of this property)
     from .common import LEN, NE as _NE
     from .terms import lin_add as _la
